@@ -21,7 +21,7 @@ NOT_CLEANER = ("implies(self.wasClean, old(self.wasClean)) and "      # failing 
 GHOST_FRAME = ["ghost.close_frames", "ghost.last_close_payload", "ghost.data_frames_after_close", "ghost.frames_sent",
                "ghost.last_frame_opcode", "ghost.last_frame_payload", "ghost.last_frame_fin", "ghost.last_frame_rsv",
                "ghost.wire", "self.trafficStats.*", "ghost.cur_msg", "ghost.in_msg", "ghost.sent_msgs", "ghost.sent_binary",
-               "ghost.cur_binary", "ghost.wellformed"]
+               "ghost.cur_binary", "ghost.wellformed", "ghost.cur_rsv", "ghost.sent_rsv", "ghost.sent_rsv1_msgs"]
 IS_DATA_OP = "(opcode == 0 or opcode == 1 or opcode == 2)"
 # message-level effect of emitting one frame (RFC 6455 5.4: a message is a first frame with opcode 1/2 followed by
 # continuation frames with opcode 0, the last one carrying FIN; control frames may be interleaved)
@@ -29,8 +29,8 @@ SENDFRAME_MSG = [
     "implies(not %s, ghost.cur_msg == old(ghost.cur_msg) and ghost.in_msg == old(ghost.in_msg) and "
     "len(ghost.sent_msgs) == old(len(ghost.sent_msgs)) and ghost.wellformed == old(ghost.wellformed) and "
     "ghost.cur_binary == old(ghost.cur_binary))" % IS_DATA_OP,
-    "implies(%s, ghost.wellformed == (old(ghost.wellformed) and ((opcode == 0) == old(ghost.in_msg))) and "
-    "ghost.in_msg == (not fin))" % IS_DATA_OP,
+    "implies(%s, ghost.wellformed == (old(ghost.wellformed) and ((opcode == 0) == old(ghost.in_msg)) and "
+    "(opcode != 0 or rsv == 0)) and ghost.in_msg == (not fin))" % IS_DATA_OP,
     "implies(%s and not fin, ghost.cur_msg == old(ghost.cur_msg) + payload and "
     "len(ghost.sent_msgs) == old(len(ghost.sent_msgs)) and "
     "ghost.cur_binary == (old(ghost.cur_binary) if opcode == 0 else (opcode == 2)))" % IS_DATA_OP,
@@ -38,7 +38,17 @@ SENDFRAME_MSG = [
     "ghost.sent_msgs[len(ghost.sent_msgs) - 1] == old(ghost.cur_msg) + payload and "
     "ghost.sent_binary[len(ghost.sent_binary) - 1] == (old(ghost.cur_binary) if opcode == 0 else (opcode == 2)) and "
     "len(ghost.sent_binary) == old(len(ghost.sent_binary)) + 1)" % IS_DATA_OP,
+    # RSV bits: those of the first frame are the message's; a continuation frame carrying any makes the sequence ill-formed
+    "implies(not %s, ghost.cur_rsv == old(ghost.cur_rsv) and len(ghost.sent_rsv) == old(len(ghost.sent_rsv)) and "
+    "ghost.sent_rsv1_msgs == old(ghost.sent_rsv1_msgs))" % IS_DATA_OP,
+    "implies(%s, ghost.cur_rsv == (old(ghost.cur_rsv) if opcode == 0 else rsv))" % IS_DATA_OP,
+    "implies(%s and not fin, len(ghost.sent_rsv) == old(len(ghost.sent_rsv)) and "
+    "ghost.sent_rsv1_msgs == old(ghost.sent_rsv1_msgs))" % IS_DATA_OP,
+    "implies(%s and fin, len(ghost.sent_rsv) == old(len(ghost.sent_rsv)) + 1 and "
+    "ghost.sent_rsv[len(ghost.sent_rsv) - 1] == ghost.cur_rsv and "
+    "ghost.sent_rsv1_msgs == old(ghost.sent_rsv1_msgs) + (1 if ghost.cur_rsv == 4 else 0))" % IS_DATA_OP,
 ]
+
 DROP_MOD = ["self.droppedByMe", "self.state", "self.is_closed.done", "ghost.n_drop", "ghost.drop_abort"]
 CLOSEFRAME_MOD = ["self.state", "self.closedByMe", "self.localCloseCode", "self.localCloseReason",
                   "self.closeHandshakeTimeoutCall", "ghost.timers_armed"] + GHOST_FRAME
@@ -637,38 +647,60 @@ def build_process_data(reg, common, RECV_PRE, DATA_MOD):
 
 
 def build_send(reg, common):
-    SEND_PRE = INV + ["self._perMessageCompress is None", "not ghost.in_msg", "ghost.cur_msg == b''"]
+    PM = "self._perMessageCompress"
+    # the compressor and the wire agree: every message the current compressor has absorbed went out, in full, flagged RSV1
+    SYNC = ("(%s is None or %s._compressor is None or ghost.n_absorbed == ghost.sent_rsv1_msgs - ghost.rsv1_base)" % (PM, PM))
+    SEND_PRE = INV + ["not ghost.in_msg", "ghost.cur_msg == b''", "not ghost.comp_open", SYNC]
     UNCHANGED = ("ghost.frames_sent == old(ghost.frames_sent) and len(ghost.sent_msgs) == old(len(ghost.sent_msgs)) and "
                  "ghost.cur_msg == old(ghost.cur_msg) and ghost.close_frames == old(ghost.close_frames)")
-    OVER = "(0 < self.maxMessagePayloadSize and self.maxMessagePayloadSize < len(payload))"
+    COMPRESS = "(%s is not None and not doNotCompress)" % PM
+    # history the message is compressed against: empty for a new compressor (none yet, reset, or no context takeover)
+    H0 = "(0 if (old(%s._compressor) is None or not %s._takeover) else old(ghost.comp_hist))" % (PM, PM)
+    Z = "(cz_data(%s, b'', payload) + cz_end(%s, payload))" % (H0, H0)
+    WIRE = "(%s if %s else payload)" % (Z, COMPRESS)
+    OVER = "(0 < self.maxMessagePayloadSize and self.maxMessagePayloadSize < len(%s))" % WIRE
+    H0P = H0.replace("old(", "(")            # the same terms in clauses evaluated in the pre-state
+    ZP, OVERP = Z.replace(H0, H0P), OVER.replace(H0, H0P)
+    LAST = "ghost.sent_msgs[len(ghost.sent_msgs) - 1]"
     reg.contract(
-        WSP + ".sendMessage", props=["C01", "C05", "C16"],
+        WSP + ".sendMessage", props=["C01", "C05", "C16", "C12"],
         params=dict(S, payload="bytes", isBinary="bool", fragmentSize="opt:int", sync="bool", doNotCompress="bool"),
-        requires=SEND_PRE + ["len(payload) < 2**62"],
-        modifies=GHOST_FRAME + ["self.wasMaxMessagePayloadSizeExceeded"],
+        requires=SEND_PRE + ["len(payload) < 2**62", "implies(%s is not None, len(%s) < 2**62)" % (PM, ZP)],
+        modifies=GHOST_FRAME + ["self.wasMaxMessagePayloadSizeExceeded", "ghost.comp_hist", "ghost.comp_in", "ghost.comp_open",
+                                "ghost.n_absorbed", "ghost.rsv1_base", PM + "._compressor"],
         ensures=INV + [
-            # exactly one message is emitted: same octets, same type, as a well-formed frame sequence
-            "len(ghost.sent_msgs) == old(len(ghost.sent_msgs)) + 1 and "
-            "ghost.sent_msgs[len(ghost.sent_msgs) - 1] == payload and "
-            "ghost.sent_binary[len(ghost.sent_binary) - 1] == isBinary",
+            # exactly one message is emitted: same type, as a well-formed frame sequence, carrying the payload itself --
+            # or, with a compression extension negotiated and not switched off for this message, the complete output
+            # of the compressor for it, flagged RSV1 on the first frame only
+            "len(ghost.sent_msgs) == old(len(ghost.sent_msgs)) + 1 and ghost.sent_binary[len(ghost.sent_binary) - 1] == isBinary",
+            "implies(not %s, %s == payload and ghost.sent_rsv[len(ghost.sent_rsv) - 1] == 0)" % (COMPRESS, LAST),
+            "implies(%s, %s == %s and ghost.sent_rsv[len(ghost.sent_rsv) - 1] == 4)" % (COMPRESS, LAST, Z),
+            # messages flagged do-not-compress never touch the compressor
+            "implies(not %s, ghost.n_absorbed == old(ghost.n_absorbed) and ghost.comp_hist == old(ghost.comp_hist))" % COMPRESS,
+            SYNC, "not ghost.comp_open",
             "ghost.wellformed == old(ghost.wellformed) and not ghost.in_msg and ghost.cur_msg == b''",
             "old(self.state) == 3 and not %s" % OVER,
             "ghost.close_frames == old(ghost.close_frames)",
         ],
         raises={"Disconnected": "self.state != 3",                         # nothing is written unless OPEN (C05)
-                "PayloadExceededError": "self.state == 3 and %s" % OVER,   # refused locally, nothing written (C16)
+                "PayloadExceededError": "self.state == 3 and %s" % OVERP,  # refused locally, nothing written (C16)
                 "Exception": "self.state == 3 and fragmentSize is not None and fragmentSize < 1"},
-        raises_ensures={"Disconnected": [UNCHANGED], "PayloadExceededError": [UNCHANGED]},
+        raises_ensures={"Disconnected": [UNCHANGED, SYNC, "ghost.n_absorbed == old(ghost.n_absorbed)"],
+                        # a refused message must not leave the two ends' compression contexts out of step (C12)
+                        "PayloadExceededError": [UNCHANGED, SYNC]},
         loops={0: {"invariant": [
             "n == len(payload) and pfs >= 1 and 0 <= i and (done or i <= n) and implies(done, i >= n)",
             "first == (i == 0) and ghost.in_msg == ((not first) and not done)",
-            "implies(not done, ghost.cur_msg == payload[0:i] and len(ghost.sent_msgs) == old(len(ghost.sent_msgs)))",
+            "implies(not done, ghost.cur_msg == payload[0:i] and len(ghost.sent_msgs) == old(len(ghost.sent_msgs)) and "
+            "len(ghost.sent_rsv) == old(len(ghost.sent_rsv)) and ghost.sent_rsv1_msgs == old(ghost.sent_rsv1_msgs))",
             "implies(done, ghost.cur_msg == b'' and len(ghost.sent_msgs) == old(len(ghost.sent_msgs)) + 1 and "
             "ghost.sent_msgs[len(ghost.sent_msgs) - 1] == payload and "
-            "ghost.sent_binary[len(ghost.sent_binary) - 1] == isBinary)",
-            "implies(not first and not done, ghost.cur_binary == isBinary)",
+            "ghost.sent_binary[len(ghost.sent_binary) - 1] == isBinary and "
+            "ghost.sent_rsv[len(ghost.sent_rsv) - 1] == (4 if sendCompressed else 0) and "
+            "ghost.sent_rsv1_msgs == old(ghost.sent_rsv1_msgs) + (1 if sendCompressed else 0))",
+            "implies(not first and not done, ghost.cur_binary == isBinary and ghost.cur_rsv == (4 if sendCompressed else 0))",
             "ghost.wellformed == old(ghost.wellformed) and ghost.close_frames == old(ghost.close_frames) and self.state == 3",
-            "opcode == (2 if isBinary else 1) and not sendCompressed",
+            "opcode == (2 if isBinary else 1)",
         ] + INV, "modifies": GHOST_FRAME,
             "hints": ["seq_slice_concat(payload, i, i + pfs)", "seq_slice_concat(payload, i, n)"]}},
         asserts="oblige", **common)
